@@ -83,6 +83,12 @@ let () =
            let hist = nlist n (fun () -> let sv = nf () in let fv = nf () in (sv, fv)) in
            let tr = tf_trace fops lagged sub None 0.0 hist in
            Printf.printf "%s\n" (String.concat " " (List.map hex tr))
+         | "TFR" ->
+           (* TFR late lagged sub n {s fb fba} -> reported total forces (applied force split fb / fb_actual) *)
+           let late = nb () in let lagged = nb () in let sub = nb () in let n = ni () in
+           let hist = nlist n (fun () -> let sv = nf () in let b1 = nf () in let b2 = nf () in (sv, (b1, b2))) in
+           let tr = tf_trace_routed fops late lagged sub None 0.0 hist in
+           Printf.printf "%s\n" (String.concat " " (List.map hex tr))
          | _ -> Printf.printf "?\n")
       end
     done
